@@ -672,6 +672,8 @@ class FmtStr:
         return self._width_aware_splitlines(columns)
 
     def _width_aware_splitlines(self, columns: int) -> Iterator["FmtStr"]:
+        if not self.chunks:
+            return  # a FmtStr without runs (e.g. f * 0) has no lines
         splitter = self.chunks[0].splitter()
         chunks_of_line = []
         width_of_line = 0
